@@ -179,6 +179,55 @@ func TestBoundedDataPlane(t *testing.T) {
 			}
 		}
 	}
+	// Zero(i): row i is zero afterwards, all others unchanged — for relation and non-relation
+	// columns alike (a relation component may carry a payload after its marker)
+	for _, tp := range bndTrivialTypes() {
+		size := tp.Size()
+		for _, isRel := range []bool{false, true} {
+			for capacity := 1; capacity <= 20; capacity++ {
+				for i := 0; i < capacity; i++ {
+					c := newColumn(0, tp, size, isRel, true, Entity{}, uint32(capacity))
+					bndFill(&c, capacity, 11)
+					before := append([]byte{}, bndBytes(&c, capacity)...)
+					c.Zero(uintptr(i), zp)
+					after := bndBytes(&c, capacity)
+					cases++
+					if size > 0 {
+						nontrivial++
+					}
+					for r := 0; r < capacity; r++ {
+						for k := 0; k < int(size); k++ {
+							want := before[r*int(size)+k]
+							if r == i {
+								want = 0
+							}
+							if after[r*int(size)+k] != want {
+								fail("Zero type=%s relation=%v cap=%d i=%d: row %d byte %d is %d, want %d", tp, isRel, capacity, i, r, k, after[r*int(size)+k], want)
+								return
+							}
+						}
+					}
+				}
+			}
+		}
+	}
+	for _, isRel := range []bool{false, true} {
+		pt := reflect.TypeFor[bndP]()
+		c := newColumn(0, pt, pt.Size(), isRel, false, Entity{}, 8)
+		x := 42
+		for r := 0; r < 8; r++ {
+			c.data.Index(r).Set(reflect.ValueOf(bndP{P: &x, S: "s"}))
+		}
+		for r := 0; r < 8; r++ {
+			c.Zero(uintptr(r), zp)
+			cases++
+			nontrivial++
+			if !c.data.Index(r).IsZero() {
+				fail("Zero pointer type relation=%v: row %d not zero", isRel, r)
+				return
+			}
+		}
+	}
 	// pointer-bearing columns: Reset and Zero clear the values (checked through reflection)
 	pt := reflect.TypeFor[bndP]()
 	for capacity := 1; capacity <= 2*bndCap; capacity += 7 {
@@ -211,6 +260,11 @@ type bndVel struct{ V [3]uint32 }
 type bndRef struct {
 	P *int
 	S []int
+}
+type bndChildOf struct {
+	RelationMarker
+	Weight uint64
+	Tag    [3]uint16
 }
 
 // bndClean: every row at or beyond len of every table is all-zero in every column.
@@ -306,6 +360,46 @@ func bndHistories(t *testing.T) (int, int) {
 			_ = posMap
 			if !step("re-create") {
 				return cases, nontrivial
+			}
+		}
+	}
+	// the same invariant with a relation component that carries a payload
+	for n := 1; n <= 40; n++ {
+		for variant := 0; variant < 3; variant++ {
+			w := NewWorld(4, 4)
+			parents := []Entity{w.NewEntity(), w.NewEntity()}
+			cm := NewMap2[bndChildOf, bndPos](w)
+			var es []Entity
+			for i := 0; i < n; i++ {
+				es = append(es, cm.NewEntity(&bndChildOf{Weight: uint64(i) + 7, Tag: [3]uint16{1, 2, 3}}, &bndPos{1, 2}, RelIdx(0, parents[i%2])))
+			}
+			switch variant {
+			case 0:
+				for i := 0; i < n; i += 2 {
+					w.RemoveEntity(es[i])
+				}
+			case 1:
+				w.RemoveEntity(parents[0])
+			case 2:
+				for i := 0; i < n; i++ {
+					cm.SetRelations(es[i], RelIdx(0, parents[(i+1)%2]))
+				}
+			}
+			cases++
+			nontrivial++
+			if msg := bndClean(w); msg != "" {
+				t.Errorf("relation history n=%d variant=%d: %s", n, variant, msg)
+				return cases, nontrivial
+			}
+			for i := 0; i < n; i++ {
+				e := cm.NewEntityFn(nil, RelIdx(0, parents[1]))
+				c, p := cm.Get(e)
+				cases++
+				nontrivial++
+				if c.Weight != 0 || c.Tag != [3]uint16{} || *p != (bndPos{}) {
+					t.Errorf("relation history n=%d variant=%d: uninitialised relation payload of new entity %d is not zero: %+v", n, variant, i, *c)
+					return cases, nontrivial
+				}
 			}
 		}
 	}
